@@ -819,11 +819,12 @@ def constsQ : Consts ℚ :=
     half := Extracted.halfQ, big := Extracted.bigQ, nobond := Extracted.nobondQ }
 
 /-- `hh`, `hb`, `hbig` of the theorems above and `hd` of `covalent_iff_rule` (every reported distance exceeds
-    `eps - bias ≥ nobond`) hold for the literals in the source; re-checked whenever sdm.py changes -/
+    `eps - bias ≥ nobond`) hold for the literals in the source, and the bond factor is the 1.2 of the statement;
+    re-checked whenever sdm.py changes -/
 theorem extracted_constants_ok :
     2 * constsQ.half = 1 ∧ 0 ≤ constsQ.bias ∧ constsQ.cut + constsQ.bias < constsQ.big ∧
-    constsQ.nobond ≤ constsQ.eps - constsQ.bias ∧ 0 < constsQ.factor := by
-  simp only [constsQ, Extracted.cutQ, Extracted.biasQ, Extracted.epsQ, Extracted.factorQ, Extracted.halfQ,
+    constsQ.nobond ≤ constsQ.eps - constsQ.bias ∧ constsQ.factor = statementFactor := by
+  simp only [statementFactor, constsQ, Extracted.cutQ, Extracted.biasQ, Extracted.epsQ, Extracted.factorQ, Extracted.halfQ,
     Extracted.bigQ, Extracted.nobondQ]
   norm_num
 
